@@ -126,7 +126,8 @@ def layout_descs(maxlen):
                     sub = direction[a:b]
                     if sub[0] in lay.data_qubit_ids and sub[-1] in lay.data_qubit_ids:
                         nd = sum(1 for q in sub if q in lay.data_qubit_ids)
-                        yield RepetitionCodeDescription.from_connectivity(involved_qubit_ids=sub, connectivity=lay), '%s:%s' % (lay.__class__.__name__, '-'.join(q.id for q in sub)), nd
+                        for refocus in (True, False):
+                            yield RepetitionCodeDescription.from_connectivity(involved_qubit_ids=sub, connectivity=lay, qubit_refocusing=refocus), '%s:%s%s' % (lay.__class__.__name__, '-'.join(q.id for q in sub), '' if refocus else ':norefocus'), nd
 
 
 def main(out, dmax, cmax, nlayout, seed, anc_states):
@@ -147,7 +148,7 @@ def main(out, dmax, cmax, nlayout, seed, anc_states):
     lds = list(layout_descs(5))
     rnd.shuffle(lds)
     for desc, name, nd in lds[:nlayout]:
-        for cycles in (0, 1, rnd.randint(2, cmax)):
+        for cycles in (0, 1, 2, rnd.randint(3, max(3, cmax))):
             bits = tuple(rnd.randint(0, 1) for _ in range(nd))
             rows += one(desc, name, nd, bits, None, cycles, 'main')
     json.dump(rows, open(out, 'w'))
